@@ -47,12 +47,7 @@ func TestC09LargeReplyToASlowReader(t *testing.T) {
 				}()
 			}
 		}()
-		ln, err := hx.Listen("tcp", "127.0.0.1:0")
-		if err != nil {
-			t.Fatalf("VERIF-INCONCLUSIVE %v", err)
-		}
-		addr := ln.Addr().String()
-		ln.Close()
+		addr := hx.FreeAddr()
 		tg := &route.Target{Service: "svc", URL: &url.URL{Scheme: "tcp", Host: up.Addr().String()}}
 		go proxy.ListenAndServeTCP(config.Listen{Addr: addr, Proto: "tcp"}, &tcp.Proxy{Lookup: func(string) *route.Target { return tg }, DialTimeout: 2 * time.Second}, nil)
 		var c net.Conn
